@@ -164,6 +164,8 @@ def target_id(t, env):
         return env[t['$node']]['id']
     if '$int' in t:
         return env[t['$int']]['id']
+    if '$lit' in t:
+        return t['$lit']          # plain int target: exactly that node id
     raise ValueError(t)
 
 
@@ -233,6 +235,9 @@ def _group(op, env):
 
 
 def _basic_new(op, env):
+    if 'node_id' in op:
+        # explicit id: kept as is, nothing drawn from the allocator
+        return Expect([], method=f"{op['cls']}.basic_new(node_id)")
     return Expect([], ledger=[('node', 'alloc', 1, env[op['out']]['id'])],
                   method=f"{op['cls']}.basic_new")
 
